@@ -68,7 +68,11 @@ func sameBits(a, b []float64) bool {
 
 // mwu x1 x2 alt exactLimit tiesLimit
 func execMWU(a []Tok) string {
-	x1, x2 := a[0].Fs(), a[1].Fs()
+	x1 := a[0].Fs()
+	x2 := x1 // a case naming the same sample twice passes ONE slice for both parameters
+	if !sameTok(a[0], a[1]) {
+		x2 = a[1].Fs()
+	}
 	o1 := append([]float64(nil), x1...)
 	o2 := append([]float64(nil), x2...)
 	stats.MannWhitneyExactLimit = a[3].Int()
@@ -614,6 +618,9 @@ func genC03(w *bufio.Writer, tier string, rng *rand.Rand) {
 		}
 		alt := rng.Intn(3) - 1
 		emit(x1, x2, alt, lim[0], lim[1])
+		if rng.Intn(30) == 0 { // a sample against itself
+			emit(x1, x1, alt, lim[0], lim[1])
+		}
 		switch rng.Intn(6) {
 		case 0: // swapped, mirrored alternative
 			emit(x2, x1, -alt, lim[0], lim[1])
